@@ -88,7 +88,9 @@ template<class Geod, class Line> static void inverse_props(const char* name, con
     if (s12 > 1 && a12 < 179) { Line l = g.InverseLine(lat1, lon1, lat2, lon2); Res r = nanres();
       r.a12 = l.GenPosition(false, l.Distance(), Geod::ALL, r.lat2, r.lon2, r.azi2, r.s12, r.m12, r.M12, r.M21, r.S12);
       if (!(std::fabs(r.m12 - m12) <= 2 * tol && std::fabs(r.M12 - M12) <= tM && std::fabs(r.M21 - M21) <= tM)) bad(std::string("inverseline-") + name, "InverseLine(...).Position(Distance()) and Inverse disagree on m12/M12/M21");
-      if (!std::isnan(tS) && std::fabs(lat1) < 87 && std::fabs(lat2) < 87 && !(std::fabs(r.S12 - S12) <= 2 * tS)) bad(std::string("inverseline-") + name, "InverseLine(...).Position(Distance()) and Inverse disagree on S12 by " + std::to_string(r.S12 - S12)); }
+      // S12 = c2 (alp2 - alp1) + ...: an azimuth is defined to (position accuracy)/(a |sin alp0|) only (as in check_vs_oracle)
+      double salp0 = std::fabs(std::sin(a1 * Math::degree()) * (double)cosbeta(f, lat1)), cond = std::fmax(1.0, 0.25 / std::fmax(salp0, 1e-3));
+      if (!std::isnan(tS) && std::fabs(lat1) < 87 && std::fabs(lat2) < 87 && !(std::fabs(r.S12 - S12) <= 2 * tS * cond)) bad(std::string("inverseline-") + name, "InverseLine(...).Position(Distance()) and Inverse disagree on S12 by " + std::to_string(r.S12 - S12) + " (tolerance " + std::to_string(2 * tS * cond) + ")"); }
   }
   // reversal
   double s21, b1, b2, m21, N12, N21, T12; g.Inverse(lat2, lon2, lat1, lon1, s21, b1, b2, m21, N12, N21, T12);
